@@ -50,33 +50,42 @@ def zoo_choices(rng, n=6):
     return [{'t': 'zoo', 'cls': rng.choice(names), 'seed': 0, 'i': rng.randrange(3)} for _ in range(n)]
 
 
-def make_cases(ctx, n_graph, n_leg, n_linalg, zoo_seeds, zoo_all_formats):
-    cases = []
+def make_cases(ctx, n_graph, n_leg, n_linalg, zoo_seeds, zoo_all):
+    """returns (first, rest): `first` = every discovered class once (instance 0, default format), evaluated before
+    anything else so that a deadline cut never drops a class; `rest` is shuffled by the caller."""
+    first, rest = [], []
     names = sorted(K.classes())
-    # zoo: every class
     for zs in zoo_seeds:
         for cn in names:
             n_inst = len(K.zoo_instances(cn, zs)) or 1
+            rng = ctx.sub_rng('zoo:%s:%d' % (cn, zs))
             for i in range(n_inst):
-                fmts = K.FORMATS if (zoo_all_formats or i == 0) else ('blocks',)
+                wrap = 'dict' if (i + zs) % 2 == 0 else 'list'
+                if zoo_all:
+                    fmts = K.FORMATS
+                elif i == 0:
+                    # flat cannot load anything holding a tensor (known finding): sample it
+                    fmts = ('blocks', 'compact') + (('flat',) if (cn.startswith('tenpy.linalg') or rng.random() < 0.2) else ())
+                else:
+                    fmts = (rng.choice(['blocks', 'compact']),)
                 for fmt in fmts:
-                    cases.append({'kind': 'zoo', 'cls': cn, 'seed': zs, 'i': i, 'fmt': fmt,
-                                  'wrap': 'dict' if (i + zs) % 2 == 0 else 'list'})
+                    c = {'kind': 'zoo', 'cls': cn, 'seed': zs, 'i': i, 'fmt': fmt, 'wrap': wrap}
+                    (first if (i == 0 and fmt == 'blocks' and zs == zoo_seeds[0]) else rest).append(c)
     for n in range(n_graph):
         rng = ctx.sub_rng('graph:%d' % n)
         with_zoo = rng.random() < 0.12
         spec = K.gen_spec(rng, zoo_choices=zoo_choices(rng) if with_zoo else None,
                           allow_tuple_cycle=rng.random() < 0.06, allow_reduce=rng.random() < 0.3)
-        cases.append({'kind': 'graph', 'index': n, 'spec': spec})
+        rest.append({'kind': 'graph', 'index': n, 'spec': spec})
     for n in range(n_leg):
         s = ctx.sub_rng('leg:%d' % n).randrange(2 ** 31)
         for fmt in K.FORMATS:
-            cases.append({'kind': 'leg', 'seed': s, 'fmt': fmt})
+            rest.append({'kind': 'leg', 'seed': s, 'fmt': fmt})
     for n in range(n_linalg):
         rng = ctx.sub_rng('linalg:%d' % n)
-        cases.append({'kind': 'linalg', 'seed': rng.randrange(2 ** 31), 'what': rng.choice(['chinfo', 'pipe', 'array', 'array']),
-                      'fmt': rng.choice(K.FORMATS + ('blocks',))})
-    return cases
+        rest.append({'kind': 'linalg', 'seed': rng.randrange(2 ** 31), 'what': rng.choice(['chinfo', 'pipe', 'array', 'array']),
+                     'fmt': rng.choice(K.FORMATS + ('blocks',))})
+    return first, rest
 
 
 def corpus_cases():
@@ -256,19 +265,14 @@ def run(ctx):
     t0 = time.time()
     deadline = ctx.t0 + ctx.budget_s * 0.80
     if ctx.quick:
-        cases = make_cases(ctx, n_graph=500, n_leg=120, n_linalg=140, zoo_seeds=[ctx.seed], zoo_all_formats=False)
+        first, rest = make_cases(ctx, n_graph=500, n_leg=120, n_linalg=140, zoo_seeds=[ctx.seed], zoo_all=False)
         procs = 6
     else:
-        cases = make_cases(ctx, n_graph=20000, n_leg=4000, n_linalg=4000, zoo_seeds=[ctx.seed * 7 + k for k in range(6)],
-                           zoo_all_formats=True)
+        first, rest = make_cases(ctx, n_graph=20000, n_leg=4000, n_linalg=4000, zoo_seeds=[ctx.seed * 7 + k for k in range(6)],
+                                 zoo_all=True)
         procs = 15
-    cases = corpus_cases() + cases
-    # interleave so that a deadline cut keeps every stream represented
-    order = list(range(len(cases)))
-    ncorp = len(corpus_cases())
-    tail = order[ncorp:]
-    random.Random('order:%d' % ctx.seed).shuffle(tail)
-    cases = [cases[i] for i in order[:ncorp] + tail]
+    random.Random('order:%d' % ctx.seed).shuffle(rest)  # a deadline cut keeps every stream represented
+    cases = corpus_cases() + first + rest
     recs = evaluate(cases, procs, deadline)
     model_compare(res, recs)
     res.extra['cases_planned'] = len(cases)
@@ -284,8 +288,10 @@ def search(ctx, reasons):
     """oracle only, other seeds, bigger budget"""
     res = core.Result()
     ctx2 = core.Ctx(PROP, ctx.tier, ctx.seed + 1000003, ctx.budget_s)
-    cases = corpus_cases() + make_cases(ctx2, n_graph=1500 if ctx.quick else 30000, n_leg=300 if ctx.quick else 5000,
-                                        n_linalg=300 if ctx.quick else 5000, zoo_seeds=[ctx.seed + 1], zoo_all_formats=True)
+    first, rest = make_cases(ctx2, n_graph=1500 if ctx.quick else 30000, n_leg=300 if ctx.quick else 5000,
+                             n_linalg=300 if ctx.quick else 5000, zoo_seeds=[ctx.seed + 1], zoo_all=True)
+    random.Random('search:%d' % ctx.seed).shuffle(rest)
+    cases = corpus_cases() + first + rest
     recs = evaluate(cases, 12, time.time() + (30 if ctx.quick else 600))
     model_compare(res, recs, use_model=False)
     return res
